@@ -3,8 +3,9 @@ import Okane.Base.Outcome
 # Model of `golden/src/lib.rs` (`okane_golden::Golden`)
 
 The outside world the helper touches is one file and one environment variable.
-Decoding bytes to UTF-8 happens outside the model: a file is either `text cs` or `binary` (not UTF-8).
-`std::fs::write` is assumed to succeed (operating-system behaviour, not modelled).
+Decoding bytes to UTF-8 happens outside the model: a file is either `text cs` or `binary` (not UTF-8), or the path
+names a directory.  Whether `std::fs::write` can succeed is a fact about the world (`writable`: the parent directory
+exists, the path is not a directory, permissions allow it); when it cannot, `expect("Update golden failed")` panics.
 -/
 namespace Okane.Golden
 
@@ -12,6 +13,7 @@ namespace Okane.Golden
 inductive FileContent where
   | text (cs : List Char)
   | binary
+  | directory
   deriving Repr, DecidableEq
 
 /-- Value of `UPDATE_GOLDEN`: unset, set to something that is not valid Unicode, or set to a string. -/
@@ -24,11 +26,14 @@ inductive EnvVal where
 structure World where
   file : Option FileContent
   env : EnvVal
+  /-- can `std::fs::write(path, _)` succeed? -/
+  writable : Bool := true
   deriving Repr, DecidableEq
 
 inductive IoErr where
   | notFound
   | invalidData
+  | other
   deriving Repr, DecidableEq
 
 /-- `s.replace("\r\n", "\n")`. -/
@@ -42,6 +47,7 @@ def readAsUtf8 (w : World) : Outcome IoErr (List Char) :=
   match w.file with
   | none => .err .notFound
   | some .binary => .err .invalidData
+  | some .directory => .err .other
   | some (.text cs) => .ok (crlfToLf cs)
 
 /-- `is_update_golden`: `!std::env::var("UPDATE_GOLDEN").unwrap_or_default().is_empty()`. -/
@@ -70,8 +76,10 @@ inductive Verdict where
 /-- `Golden::assert`: returns the verdict, the world afterwards, and whether a write happened. -/
 def assert (g : Golden) (got : List Char) (w : World) : Verdict × World × Bool :=
   if isUpdate w.env then
-    -- want = got; the file is overwritten with `got`; assert_str_eq!(got, got) passes
-    (.pass, { w with file := some (.text got) }, true)
+    -- want = got; the file is overwritten with `got`; assert_str_eq!(got, got) passes.
+    -- `std::fs::write(..).expect("Update golden failed")`: a write that cannot happen panics, nothing changes
+    if w.writable then (.pass, { w with file := some (.text got) }, true)
+    else (.panic, w, false)
   else
     (if g.content = got then .pass else .panic, w, false)
 
